@@ -190,8 +190,8 @@ def tie_text_block(ctx, case, path, full, offs):
         w = l.split()
         if l.startswith('[correlator]'):
             cur = {}
-        elif len(w) == 2 and w[0] in ('name', 'quarks', 'wf', 'wf_2'):
-            cur[w[0]] = w[1]
+        elif len(w) >= 2 and w[0] in ('name', 'quarks', 'wf', 'wf_2'):
+            cur[w[0]] = ' '.join(w[1:])
         elif l in ('corr_t', 'corr'):
             if cur.get('name') == nm and cur.get('quarks') == quarks and int(cur.get('wf', -1)) == wf and (not bb or int(cur.get('wf_2', -1)) == wf2):
                 start = i + 1
